@@ -94,6 +94,20 @@ func c03(c *wk.Ctx) {
 			}()
 		}
 		v := fixDyn(rng, t, rc.GenValue(rng, t, vo))
+		if rng.Intn(6) == 0 && t.Has(rc.Dyn) { // dynamic values holding nothing (value.Void(), 5 bytes each): some or all of them
+			all := rng.Intn(2) == 0
+			n := 0
+			v = voidDyn(t, v, func() bool {
+				if all || rng.Intn(2) == 0 {
+					n++
+					return true
+				}
+				return false
+			})
+			if n > 0 {
+				c.Count("values_with_void_dynamic_values", 1)
+			}
+		}
 		checkThree(c, "three", i, t, v, rng)
 	})
 	// long containers up to the decoder's own cap
@@ -119,6 +133,34 @@ func c03(c *wk.Ctx) {
 		}
 		checkThree(c, "long", i, t, v, rng)
 	})
+}
+
+// voidDyn replaces the dynamic values for which pick answers true by the void value.
+func voidDyn(t *rc.Type, v interface{}, pick func() bool) interface{} {
+	switch t.K {
+	case rc.Dyn:
+		if pick() {
+			return rc.DynV{T: rc.T(rc.Void), V: rc.VoidV{}}
+		}
+		d := v.(rc.DynV)
+		return rc.DynV{T: d.T, V: voidDyn(d.T, d.V, pick)}
+	case rc.List:
+		l := v.([]interface{})
+		for i := range l {
+			l[i] = voidDyn(t.Elem, l[i], pick)
+		}
+	case rc.Map:
+		m := v.([]rc.KV)
+		for i := range m {
+			m[i].V = voidDyn(t.Elem, m[i].V, pick)
+		}
+	case rc.Tuple, rc.Struct:
+		tu := v.(rc.Tup)
+		for i, mt := range t.Mem {
+			tu[i] = voidDyn(mt, tu[i], pick)
+		}
+	}
+	return v
 }
 
 func checkThree(c *wk.Ctx, stream string, i int, t *rc.Type, v interface{}, rng *rand.Rand) {
@@ -168,7 +210,11 @@ func checkThree(c *wk.Ctx, stream string, i int, t *rc.Type, v interface{}, rng 
 		c.Viol(stream, i, "reader=parse", "signature rejected: "+err.Error(), detail)
 		return
 	}
-	trailer := make([]byte, rng.Intn(9))
+	tl := rng.Intn(13) // nothing behind the value in one case out of three
+	if tl > 8 {
+		tl = 0
+	}
+	trailer := make([]byte, tl)
 	rng.Read(trailer)
 	// the source is a *bytes.Reader, a *bytes.Buffer (what the bus hands to decoders) or a plain io.Reader which
 	// has no other method (a file, a socket, a pipe: gives as much as it is asked for)
